@@ -91,9 +91,15 @@ pub struct FinCfg {
     pub reason: String,
 }
 
+thread_local! {
+    /// extra header lines put first into every final head built by FinCfg::head (set by drivers)
+    pub static EXTRA_HEAD_LINES: std::cell::RefCell<String> = std::cell::RefCell::new(String::new());
+}
+
 impl FinCfg {
     pub fn head(&self) -> Vec<u8> {
         let mut h = format!("HTTP/1.{} {} {}\r\n", if self.resp10 { 0 } else { 1 }, self.status, self.reason);
+        EXTRA_HEAD_LINES.with(|x| h.push_str(&x.borrow()));
         if let Some(l) = &self.loc {
             h.push_str(&format!("Location: {}\r\n", l));
         }
@@ -371,7 +377,8 @@ impl Sim {
                     return Some(out[..n.min(len)].to_vec());
                 }
                 (Some(Err(e)), Some(rd)) => {
-                    ev_call(t, "SendRequest", "sr_write", json!({"res":"err","n":0,"ready":rd,"outl":len,"err":format!("{:?}", e)}));
+                    let overflow = matches!(e, ureq_proto::Error::OutputOverflow);
+                    ev_call(t, "SendRequest", "sr_write", json!({"res":"err","n":0,"ready":rd,"outl":len,"overflow":overflow,"err":format!("{:?}", e)}));
                     return Some(vec![]);
                 }
                 _ => self.panic(t, "head write"),
@@ -596,6 +603,20 @@ impl Sim {
         match r {
             Some((mc, reason)) => ev_call(t, st, "verdict", json!({"must_close": mc, "reason": reason.unwrap_or("")})),
             None => self.panic(t, "must_close_connection"),
+        }
+    }
+
+    /// as_new_flow() in the Redirect state (at most once per state): the result is logged, the new flow dropped
+    pub fn op_new_flow(&mut self, t: &mut Tracer, same_host: bool) {
+        self.calls += 1;
+        if let FlowBox::Redirect(f) = &mut self.fb {
+            let pol = if same_host { ureq_proto::client::flow::RedirectAuthHeaders::SameHost } else { ureq_proto::client::flow::RedirectAuthHeaders::Never };
+            match guarded(|| f.as_new_flow(pol).map(|x| x.map(|nf| (nf.method().to_string(), nf.uri().to_string())))) {
+                Some(Ok(Some((m, u)))) => ev_call(t, "Redirect", "new_flow", json!({"res":"flow","method":m,"uri":u})),
+                Some(Ok(None)) => ev_call(t, "Redirect", "new_flow", json!({"res":"none"})),
+                Some(Err(e)) => ev_call(t, "Redirect", "new_flow", json!({"res":"err","err":format!("{:?}", e)})),
+                None => self.panic(t, "as_new_flow"),
+            }
         }
     }
 
